@@ -120,6 +120,15 @@ structure App where
   ready : Bool := false
   answerWaiting : List Nat := []          -- hop-by-hop ids of blocked senders
   raiseOnRequest : Bool := false
+  -- ThreadingApplication
+  recvQ : List AMsg := []                 -- `_recv_msg_queue`
+  respQ : List AMsg := []                 -- `_resp_msg_queue` (answers; with the repair also `None` markers, see `respNone`)
+  respNone : Nat := 0                     -- `None` results queued behind the answers (repaired code only)
+  slots : Nat := 0                        -- `_thread_slots` in use
+  recvAlive : Bool := true
+  respAlive : Bool := true
+  outcome : String := "answer"            -- what `handle_request` does: answer | none | raise
+  held : Bool := false                    -- schedule control: the queue consumers are not running
   deriving Repr, Inhabited
 
 /-- route table key: an application (by index) or the `"_default"` entry -/
@@ -174,6 +183,7 @@ structure St where
   appRequests : List (Nat × AMsg) := []            -- requests handed to applications, in order
   delivered : List (Nat × AMsg) := []              -- answers handed to blocked senders
   inProgress : List Nat := []                      -- non-blocking connects whose outcome is not known yet
+  deferred : List (Nat × AMsg) := []               -- started handler threads that have not run yet
   outs : List Out := []
   deriving Repr, Inhabited
 
@@ -541,6 +551,10 @@ def receiveDwa (s : St) (cid : Nat) : St :=
 /-- `Application.receive_request` for a basic application: `handle_request`
     runs in the caller; it may raise. -/
 def appReceiveRequest (s : St) (ai : Nat) (m : AMsg) : HR :=
+  if (s.apps[ai]?).map (·.kind) == some AppKind.threading then
+    -- ThreadingApplication.receive_request: only queues the message
+    (s.modApp ai fun a => { a with recvQ := a.recvQ ++ [m] }, none)
+  else
   let s := { s with appRequests := s.appRequests ++ [(ai, m)] }
   let s := s.emit (.appReq ai m)
   match s.apps[ai]? with
